@@ -10,29 +10,29 @@ Open Scope Z_scope.
 (* "The bounded construction cache is invisible": after any history of
    constructor calls, with any maxlen >= 1, a call returns what the
    cache-free construction returns (runs that exhaust the fuel excluded). *)
-Definition cache_transparent : Prop :=
+Definition cache_transparent_old : Prop :=
   forall (ml fuel : nat) (h : list op) (o : op), (1 <= ml)%nat ->
-    let st := snd (run fuel (cached ml) h empty) in
-    let r := fst (call fuel (cached ml) (fst o) (snd o) st) in
-    r <> Fuel -> build0 fuel (fst o) (snd o) <> Fuel -> r = build0 fuel (fst o) (snd o).
+    let st := snd (run fuel (cached_old ml) h empty) in
+    let r := fst (call fuel (cached_old ml) (fst o) (snd o) st) in
+    r <> Fuel -> build0_old fuel (fst o) (snd o) <> Fuel -> r = build0_old fuel (fst o) (snd o).
 
 (* "Rebuilding an item from its published identifier or spec yields an equal
    item", for the cache-free constructors. *)
-Definition rebuild_ok : Prop :=
+Definition rebuild_ok_old : Prop :=
   forall (fuel : nat) (a : item), wf_item a = true ->
-    (rebuild_spec fuel a <> Fuel -> rebuild_spec fuel a = OK a) /\
-    (rebuild_ident fuel a <> Fuel -> rebuild_ident fuel a = OK a).
+    (rebuild_spec_old fuel a <> Fuel -> rebuild_spec_old fuel a = OK a) /\
+    (rebuild_ident_old fuel a <> Fuel -> rebuild_ident_old fuel a = OK a).
 
 (* witness: the sentence  a = a  over the system predicate Identity *)
 Definition w_a : item := IParam (Const 0 0).
 Definition w_s : item := ISent (Pred Identity [Const 0 0; Const 0 0]).
 Definition w_make : op := (CPredicated, [PItem (IPred Identity); PTup [PItem w_a; PItem w_a]]).
 Definition w_rebuild : op := (CSentence, [ident_pv w_s]).
-Definition w_rebuild_spec : op := (CPredicated, spec_args w_s).
+Definition w_rebuild_spec_old : op := (CPredicated, spec_args w_s).
 Definition w_other : op := (CConstant, [PInt 1; PInt 0]).
 
 (* T cache_transparent — refuted: one earlier construction is enough. *)
-Theorem cache_transparent_refuted : ~ cache_transparent.
+Theorem cache_transparent_old_refuted : ~ cache_transparent_old.
 Proof.
   intro H. specialize (H 1%nat 20%nat [w_make] w_rebuild (le_n 1)).
   vm_compute in H.
@@ -41,16 +41,16 @@ Proof.
 Qed.
 
 (* ... for EVERY maxlen >= 1, and for both rebuild forms. *)
-Theorem cache_visible_every_maxlen ml : (1 <= ml)%nat ->
-  transparent_b 20 ml [w_make] w_rebuild = false /\
-  transparent_b 20 ml [w_make] w_rebuild_spec = false.
+Theorem cache_visible_every_maxlen_old ml : (1 <= ml)%nat ->
+  transparent_old_b 20 ml [w_make] w_rebuild = false /\
+  transparent_old_b 20 ml [w_make] w_rebuild_spec_old = false.
 Proof. destruct ml as [|m]; [lia|]. intros _. split; vm_compute; reflexivity. Qed.
 
 (* The same call gives different answers after different histories (cache
    warm vs evicted), here with maxlen = 1 and one unrelated construction. *)
-Theorem rebuild_depends_on_history :
-  fst (run 20 (cached 1) [w_make; w_rebuild] empty) = [OK w_s; OK w_s] /\
-  fst (run 20 (cached 1) [w_make; w_other; w_rebuild] empty)
+Theorem rebuild_depends_on_history_old :
+  fst (run 20 (cached_old 1) [w_make; w_rebuild] empty) = [OK w_s; OK w_s] /\
+  fst (run 20 (cached_old 1) [w_make; w_other; w_rebuild] empty)
     = [OK w_s; OK (IParam (Const 1 0)); Err EValueError].
 Proof. split; vm_compute; reflexivity. Qed.
 
@@ -58,10 +58,10 @@ Proof. split; vm_compute; reflexivity. Qed.
    the witness reproduced with the default 1000. *)
 Definition fillers (n : nat) : list op :=
   map (fun k => (CConstant, [PInt 0; PInt (Z.of_nat (S k))])) (seq 0 n).
-Theorem eviction_witness_small :
+Theorem eviction_witness_small_old :
   forall ml, In ml [1; 2; 3; 5]%nat ->
-    last (fst (run 20 (cached ml) ([w_make] ++ fillers (ml - 1) ++ [w_rebuild]) empty)) Fuel = OK w_s /\
-    last (fst (run 20 (cached ml) ([w_make] ++ fillers ml ++ [w_rebuild]) empty)) Fuel = Err EValueError.
+    last (fst (run 20 (cached_old ml) ([w_make] ++ fillers (ml - 1) ++ [w_rebuild]) empty)) Fuel = OK w_s /\
+    last (fst (run 20 (cached_old ml) ([w_make] ++ fillers ml ++ [w_rebuild]) empty)) Fuel = Err EValueError.
 Proof.
   intros ml H. simpl in H.
   repeat (destruct H as [<-|H]; [split; vm_compute; reflexivity|]). contradiction.
@@ -69,18 +69,18 @@ Qed.
 
 (* T rebuild — refuted even without any cache: neither a system predicate nor a
    sentence over one can be constructed from its own spec / ident. *)
-Theorem rebuild_refuted : ~ rebuild_ok.
+Theorem rebuild_old_refuted : ~ rebuild_ok_old.
 Proof.
   intro H. destruct (H 20%nat w_s eq_refl) as [H1 _].
   vm_compute in H1. assert (X : Err EValueError = OK w_s) by (apply H1; discriminate).
   discriminate X.
 Qed.
 
-Theorem rebuild_refuted_witnesses :
-  wf_item w_s = true /\ rebuild_spec 20 w_s = Err EValueError /\ rebuild_ident 20 w_s = Err EValueError /\
-  wf_item (IPred Identity) = true /\ rebuild_spec 20 (IPred Identity) = Err EValueError /\
-  rebuild_ident 20 (IPred Identity) = Err EValueError /\
-  rebuild_ident 20 (IPred Existence) = Err EValueError.
+Theorem rebuild_old_refuted_witnesses :
+  wf_item w_s = true /\ rebuild_spec_old 20 w_s = Err EValueError /\ rebuild_ident_old 20 w_s = Err EValueError /\
+  wf_item (IPred Identity) = true /\ rebuild_spec_old 20 (IPred Identity) = Err EValueError /\
+  rebuild_ident_old 20 (IPred Identity) = Err EValueError /\
+  rebuild_ident_old 20 (IPred Existence) = Err EValueError.
 Proof. repeat split; vm_compute; reflexivity. Qed.
 
 (* Non-vacuity of the positive reading: items without system predicates do
@@ -89,7 +89,7 @@ Proof. repeat split; vm_compute; reflexivity. Qed.
 Definition ex_sent : item :=
   ISent (Bin OConjunction (Quant Existential 0 0 (Pred (mkPred 0 0 1) [Var 0 0]))
                           (Un ONegation (Atom 4 2))).
-Example rebuild_example :
-  rebuild_spec 20 ex_sent = OK ex_sent /\ rebuild_ident 20 ex_sent = OK ex_sent /\
-  transparent_b 20 2 [(CSentence, [ident_pv ex_sent]); w_other] (CLexicalAbc, [ident_pv ex_sent]) = true.
+Example rebuild_example_old :
+  rebuild_spec_old 20 ex_sent = OK ex_sent /\ rebuild_ident_old 20 ex_sent = OK ex_sent /\
+  transparent_old_b 20 2 [(CSentence, [ident_pv ex_sent]); w_other] (CLexicalAbc, [ident_pv ex_sent]) = true.
 Proof. repeat split; vm_compute; reflexivity. Qed.
